@@ -4423,6 +4423,27 @@ class NetCDFWrite(IOWrite):
             # space, so join them with commas.
             delimiter = ","
 
+        if g["post_dry_run"]:
+            # Global attributes are never (re)written when appending,
+            # so a property may only be left out of the appended data
+            # variables if the dataset already has it as a global
+            # attribute with the same value
+            file_attributes = g["netcdf"].ncattrs()
+            for attr in tuple(global_attributes):
+                if attr == "Conventions":
+                    continue
+
+                if (
+                    attr in file_attributes
+                    and self.implementation.equal_properties(
+                        g["netcdf"].getncattr(attr),
+                        self.implementation.get_property(f0, attr),
+                    )
+                ):
+                    continue
+
+                global_attributes.remove(attr)
+
         if not g["dry_run"] and not g["post_dry_run"]:
             g["netcdf"].setncattr(
                 "Conventions", delimiter.join(g["Conventions"])
